@@ -621,13 +621,66 @@ func (w *plugWorld) runOp(c map[string]interface{}) map[string]interface{} {
 		pc := &ipamapi.PoolController{Client: w.gcli, PoolLister: galaxylister.NewPoolLister(w.poolIdx), LockPoolFunc: w.plugin.LockDpPool,
 			IPAM: w.plugin.GetIpam()}
 		pre, _ := c["prealloc"].(bool)
-		body, _ := json.Marshal(map[string]interface{}{"name": Str(c, "name"), "size": int(Num(c, "size")), "preAllocateIP": pre})
-		req := httptest.NewRequest("POST", "/v1/pool", bytes.NewReader(body))
-		req.Header.Set("Content-Type", "application/json")
-		rec := httptest.NewRecorder()
-		resp := restful.NewResponse(rec)
-		resp.SetRequestAccepts("application/json")
-		pc.CreateOrUpdate(restful.NewRequest(req), resp)
+		var otherDone chan struct{}
+		otherCode := 0
+		if mw, ok := c["meanwhile"].(map[string]interface{}); ok {
+			// something else writes the Pool object while this request is between two of its API calls.  kind "request": right
+			// AFTER this request's Create / Update ("at") was answered a second POST /v1/pool runs (a goroutine; it is given 300 ms
+			// - when the requests exclude each other it can only complete afterwards).  kind "object": right BEFORE this request's
+			// Create / Update reaches the API server someone else (kubectl, another replica) writes the object.
+			otherDone = make(chan struct{})
+			hc := &poolHookCli{Interface: w.gcli, verb: Str(mw, "at")}
+			if Str(mw, "kind") == "object" {
+				hc.before = func() {
+					obj := &v1alpha1.Pool{ObjectMeta: metav1.ObjectMeta{Namespace: "kube-system", Name: Str(c, "name")}, Size: int(Num(mw, "size"))}
+					if _, err := w.gcli.GalaxyV1alpha1().Pools("kube-system").Create(context.TODO(), obj, metav1.CreateOptions{}); err != nil {
+						if cur, gerr := w.gcli.GalaxyV1alpha1().Pools("kube-system").Get(context.TODO(), Str(c, "name"), metav1.GetOptions{}); gerr == nil {
+							cur.Size = int(Num(mw, "size"))
+							_, err = w.gcli.GalaxyV1alpha1().Pools("kube-system").Update(context.TODO(), cur, metav1.UpdateOptions{})
+						}
+						if err != nil {
+							o["meanwhile_err"] = err.Error()
+						}
+					}
+					o["meanwhile_during"] = true
+					close(otherDone)
+				}
+			} else {
+				mpre, _ := mw["prealloc"].(bool)
+				other := &ipamapi.PoolController{Client: w.gcli, PoolLister: pc.PoolLister, LockPoolFunc: pc.LockPoolFunc, IPAM: pc.IPAM}
+				hc.after = func() {
+					go func() {
+						otherCode, _ = postWith(other, Str(c, "name"), int(Num(mw, "size")), mpre)
+						close(otherDone)
+					}()
+					select {
+					case <-otherDone:
+						o["meanwhile_during"] = true
+					case <-time.After(300 * time.Millisecond):
+						o["meanwhile_during"] = false
+					}
+				}
+			}
+			pc.Client = hc
+		}
+		code, errBody := postWith(pc, Str(c, "name"), int(Num(c, "size")), pre)
+		if errBody != "" {
+			o["err"] = errBody
+		}
+		if otherDone != nil {
+			select {
+			case <-otherDone:
+				if otherCode != 0 {
+					o["meanwhile_code"] = otherCode
+				}
+			case <-time.After(5 * time.Second):
+				o["meanwhile_err"] = "the concurrent request did not return"
+			}
+		}
+		if pobj, err := w.gcli.GalaxyV1alpha1().Pools("kube-system").Get(context.TODO(), Str(c, "name"), metav1.GetOptions{}); err == nil {
+			o["api_size"] = pobj.Size
+		}
+		rec := struct{ Code int }{code}
 		o["code"] = rec.Code
 		switch rec.Code {
 		case 200:
@@ -635,7 +688,6 @@ func (w *plugWorld) runOp(c map[string]interface{}) map[string]interface{} {
 			o["res"] = "notenough"
 		default:
 			o["res"] = "err"
-			o["err"] = rec.Body.String()
 		}
 	case "pool_race":
 		// POST /v1/pool with pre-allocation, stopped right after it has counted the pool's IPs; the scheduler's Filter of a pod of
@@ -834,4 +886,19 @@ func pluginHistory(c map[string]interface{}) map[string]interface{} {
 		}
 	}
 	return map[string]interface{}{"res": "ok", "steps": steps, "init_dump": nil}
+}
+
+// postWith sends POST /v1/pool to the real handler
+func postWith(pc *ipamapi.PoolController, name string, size int, prealloc bool) (int, string) {
+	body, _ := json.Marshal(map[string]interface{}{"name": name, "size": size, "preAllocateIP": prealloc})
+	req := httptest.NewRequest("POST", "/v1/pool", bytes.NewReader(body))
+	req.Header.Set("Content-Type", "application/json")
+	rec := httptest.NewRecorder()
+	resp := restful.NewResponse(rec)
+	resp.SetRequestAccepts("application/json")
+	pc.CreateOrUpdate(restful.NewRequest(req), resp)
+	if rec.Code != 200 && rec.Code != 202 {
+		return rec.Code, rec.Body.String()
+	}
+	return rec.Code, ""
 }
